@@ -179,6 +179,66 @@ def runOp (op : String) (variant : List String) (ints : List Nat) (xs : Array α
   | "btrans_opp" => go do
       let x ← rdBOp; let tb ← rdS; let td ← rdS
       return exceptB (x.transOpp tb td)
+  | "blaw" => go do
+      let x ← rdBOp; let y ← rdBOp; let z ← rdBOp
+      let bind2 (a : Except Label (BOp α)) (k : BOp α → Except Label (BOp α)) : Except Label (BOp α) :=
+        match a with | .ok v => k v | .error e => .error e
+      let lr : Except Label (BOp α) × Except Label (BOp α) := match i0 with
+        | 0 => (x.mul y, y.mul x)
+        | 1 => (bind2 (x.mul y) (fun xy => xy.mul z), bind2 (y.mul z) (fun yz => x.mul yz))
+        | 2 => (x.comul y, y.comul x)
+        | 3 => (bind2 (x.comul y) (fun xy => xy.comul z), bind2 (y.comul z) (fun yz => x.comul yz))
+        | 4 => (x.neg.comul y.neg, bind2 (x.mul y) (fun r => .ok r.neg))
+        | _ => (x.neg.mul y.neg, bind2 (x.comul y) (fun r => .ok r.neg))
+      match lr.1, lr.2 with
+      | .ok l, .ok r => return .ok (l.flat ++ r.flat)
+      | .error e, _ => return .err e
+      | _, .error e => return .err e
+  | "bdeduce_sym" => go do
+      let x ← rdBOp; let c0 ← rdTriple; let c1 ← rdTriple; let ay ← rdS
+      let sw (c : α × α × α) : α × α × α := (c.2.1, c.1, c.2.2)
+      let lr : Except Label (BOp α) × Except Label (BOp α) :=
+        if i0 == 0 then ((x.deduce c0 c1 ay).1, (x.neg.deduce c1 c0 ay).1)
+        else ((match (x.deduce c0 c1 ay).1 with | .ok r => .ok r.neg | .error e => .error e),
+              (x.deduce (sw c0) (sw c1) (Scalar.one - ay)).1)
+      match lr.1, lr.2 with
+      | .ok l, .ok r => return .ok (l.flat ++ r.flat)
+      | .error e, _ => return .err e
+      | _, .error e => return .err e
+  | "fuse_fold" => go do
+      let n := i0
+      let fop := fuseOpOfNat i1
+      let k := i2
+      let style := ints.getD 3 0
+      let perm := (ints.drop 4).take k
+      let mut ws : Array (Opinion α n) := #[]
+      for _ in [0:k] do
+        ws := ws.push (← rdOpinion n)
+      let dflt : Opinion α n := ⟨Vector.replicate n Scalar.zero, Scalar.zero, Vector.replicate n Scalar.zero⟩
+      let w (j : Nat) : Opinion α n := ws.getD (perm.getD j 0) dflt
+      if k == 0 then return .unsupported
+      if style == 3 then
+        -- right-nested grouping
+        let rec nest (js : List Nat) (fuel : Nat) : Opinion α n :=
+          match fuel, js with
+          | _, [] => dflt
+          | _, [j] => ws.getD j dflt
+          | 0, _ => dflt
+          | fuel + 1, j :: rest => fuse fop false (ws.getD j dflt) (nest rest fuel)
+        return .ok (nest perm k).flat
+      else if style == 0 && variant.contains "shared" then
+        let a := (ws.getD 0 dflt).a
+        let wa (j : Nat) : Opinion α n := Opinion.mk' (w j).simplex a
+        if k == 1 then return .ok (wa 0).flat
+        let mut acc := fuse fop true (wa 0) (wa 1)
+        for j in [2:k] do
+          acc := fuse fop false acc (wa j)
+        return .ok acc.flat
+      else
+        let mut acc := w 0
+        for j in [1:k] do
+          acc := fuse fop false acc (w j)
+        return .ok acc.flat
   | "bconv" => go do
       let x ← rdBOp
       let w := x.toOpinion
@@ -190,7 +250,7 @@ def errIsPanic (op : String) (variant : List String) : Bool :=
   let v2 := variant.getD 2 ""
   match op with
   | "simplex_new" | "opinion_new" | "bsimplex_new" | "bop_new" => v2 == "new"
-  | "bmul" | "bcomul" | "bdeduce" | "btrans_unc" | "btrans_bsr" | "btrans_opp" => true
+  | "bmul" | "bcomul" | "bdeduce" | "btrans_unc" | "btrans_bsr" | "btrans_opp" | "blaw" | "bdeduce_sym" => true
   | _ => false
 
 end SLV
